@@ -4,6 +4,7 @@ package main
 
 import (
 	"fmt"
+	"os"
 	"go/token"
 	"go/types"
 	"sort"
@@ -88,6 +89,21 @@ func (x *Exec) callWithArgs(fr *frame, cc *ssa.CallCommon, fnv sval, args []sval
 	if ct == nil && callee != nil && callee.Synthetic != "" {
 		// wrapper / bound method / promoted method: inline
 	}
+	if ct != nil && ct.Summary {
+		ct = nil
+		if callee != nil && len(callee.Blocks) > 0 {
+			ws := x.eng.writeSet(callee)
+			if !ws.Top {
+				nst := x.havocForWrites(st, ws, "summary of "+key)
+				x.inferredFieldFrames(ws, st, nst, reach)
+				return x.freshResults(sig, nst, reach), nst
+			}
+		}
+		x.note("summary callee with unbounded write set: " + key)
+		x.curTaint = true
+		nst := x.havocForWrites(st, &WriteSet{Top: true}, "summary")
+		return x.freshResults(sig, nst, reach), nst
+	}
 	if ct != nil && !ct.Inline {
 		return x.applyContract(fr, ct, callee, allArgs, argTypes, sig, st, reach, pos, key, fnv)
 	}
@@ -104,6 +120,15 @@ func (x *Exec) callWithArgs(fr *frame, cc *ssa.CallCommon, fnv sval, args []sval
 		why = "call not inlined (depth/recursion), no contract: " + key
 	}
 	x.note(why)
+	if callee != nil && len(callee.Blocks) > 0 {
+		// the callee's transitive write set (computed from its code) bounds its effect
+		ws := x.eng.writeSet(callee)
+		if !ws.Top {
+			nst := x.havocForWrites(st, ws, why)
+			x.inferredFieldFrames(ws, st, nst, reach)
+			return x.freshResults(sig, nst, reach), nst
+		}
+	}
 	x.curTaint = true
 	nst := x.havocForWrites(st, &WriteSet{Top: true}, why)
 	return x.freshResults(sig, nst, reach), nst
@@ -719,6 +744,9 @@ func (x *Exec) frameFacts(ct *Contract, env *Env, ws *WriteSet, old, nw *State, 
 		if o == n {
 			continue
 		}
+		if !check && ws != nil {
+			x.fieldFrame(ws, c, o, n, old.na, reach)
+		}
 		f := x.frameFormula(c, locs, o, n, old.na, !check)
 		if f == "" {
 			continue
@@ -735,6 +763,40 @@ func (x *Exec) frameCasesOnly(ct *Contract, posts []*Env, st0 *State, only strin
 	x.frameOnly = only
 	x.frameCases(ct, posts, st0)
 	x.frameOnly = ""
+}
+
+// fieldFrame: fields of struct component c that the callee (transitively)
+// never stores to keep their value in every pre-existing object.
+func (x *Exec) fieldFrame(ws *WriteSet, c, o, n, naOld, reach string) {
+	if !strings.HasPrefix(c, "H_") || ws.Fields[c]["*"] {
+		return
+	}
+	si := x.so.structs[strings.TrimPrefix(c, "H_")]
+	if si == nil {
+		return
+	}
+	var conj []string
+	for _, fld := range si.Fields {
+		if !ws.Fields[c][fld.Acc] {
+			conj = append(conj, "(= ("+fld.Acc+" (select "+n+" r!)) ("+fld.Acc+" (select "+o+" r!)))")
+		}
+	}
+	if len(conj) > 0 {
+		x.assume(reach, "(forall ((r! Int)) (! (=> (and (< 0 r!) (< r! "+naOld+")) "+and(conj...)+") :pattern ((select "+n+" r!))))")
+	}
+}
+
+// inferredFieldFrames: the frame that follows from a callee's computed write set alone.
+func (x *Exec) inferredFieldFrames(ws *WriteSet, old, nw *State, reach string) {
+	for _, c := range ws.sorted() {
+		if _, ok := x.so.comps[c]; !ok {
+			continue
+		}
+		o, n := old.get(c), nw.get(c)
+		if o != n {
+			x.fieldFrame(ws, c, o, n, old.na, reach)
+		}
+	}
 }
 
 // frameCases checks the function's frame at every return site.
@@ -882,6 +944,10 @@ func (x *Exec) execAppend(fr *frame, cc *ssa.CallCommon, args []sval, st *State,
 type WriteSet struct {
 	Top   bool
 	Comps map[string]bool
+	// Fields: for struct components, the record fields (accessor names) of
+	// pre-existing objects that may be stored to; "*" = any field.  A struct
+	// component in Comps without an entry here is only allocated into.
+	Fields map[string]map[string]bool
 }
 
 func (w *WriteSet) add(c string) {
@@ -891,14 +957,35 @@ func (w *WriteSet) add(c string) {
 	w.Comps[c] = true
 }
 
-func (w *WriteSet) union(o *WriteSet) *WriteSet {
-	n := &WriteSet{Top: w.Top || o.Top, Comps: map[string]bool{}}
-	for c := range w.Comps {
-		n.Comps[c] = true
+func (w *WriteSet) addField(c, acc string) {
+	w.add(c)
+	if w.Fields == nil {
+		w.Fields = map[string]map[string]bool{}
+	}
+	if w.Fields[c] == nil {
+		w.Fields[c] = map[string]bool{}
+	}
+	w.Fields[c][acc] = true
+}
+
+func (w *WriteSet) merge(o *WriteSet) {
+	if o.Top {
+		w.Top = true
 	}
 	for c := range o.Comps {
-		n.Comps[c] = true
+		w.add(c)
 	}
+	for c, fs := range o.Fields {
+		for f := range fs {
+			w.addField(c, f)
+		}
+	}
+}
+
+func (w *WriteSet) union(o *WriteSet) *WriteSet {
+	n := &WriteSet{Top: w.Top || o.Top, Comps: map[string]bool{}}
+	n.merge(w)
+	n.merge(o)
 	return n
 }
 
@@ -941,7 +1028,7 @@ func (e *Engine) contractWrites(x *Exec, ct *Contract) *WriteSet {
 			body := strings.TrimSuffix(m, "[*]")
 			if i := strings.LastIndex(body, "."); i > 0 {
 				if t := e.lookupType(body[:i], pkg); t != nil {
-					ws.add(x.so.structComp(t))
+					ws.addField(x.so.structComp(t), "*")
 					continue
 				}
 			}
@@ -969,6 +1056,11 @@ func (e *Engine) contractWrites(x *Exec, ct *Contract) *WriteSet {
 	// resolve "?expr.f" entries through the function's parameter types
 	fn := e.fns[ct.Key]
 	var out = &WriteSet{Comps: map[string]bool{}}
+	for c, fs := range ws.Fields {
+		for f := range fs {
+			out.addField(c, f)
+		}
+	}
 	for c := range ws.Comps {
 		if !strings.HasPrefix(c, "?") {
 			out.add(c)
@@ -979,6 +1071,8 @@ func (e *Engine) contractWrites(x *Exec, ct *Contract) *WriteSet {
 		if comp == "" {
 			out.Top = true
 			x.note("cannot resolve modifies location statically: " + expr + " of " + ct.Key)
+		} else if strings.HasPrefix(comp, "H_") {
+			out.addField(comp, "*")
 		} else {
 			out.add(comp)
 		}
@@ -1084,6 +1178,102 @@ func fieldType(t types.Type, name string) types.Type {
 
 // writeSet computes (memoised) the set of heap components a function with a
 // body may write, transitively through static calls and contracts.
+// externArgWrites: default effect of an external function without contract.
+func (e *Engine) externArgWrites(ws *WriteSet, cc *ssa.CallCommon) {
+	for _, a := range cc.Args {
+		switch u := a.Type().Underlying().(type) {
+		case *types.Slice:
+			ws.add(e.so.elemComp(u.Elem()))
+		case *types.Pointer:
+			switch pu := u.Elem().Underlying().(type) {
+			case *types.Struct:
+				ws.addField(e.so.structComp(u.Elem()), "*")
+			case *types.Array:
+				ws.add(e.so.elemComp(pu.Elem()))
+			default:
+				ws.add(e.so.cellComp(u.Elem()))
+			}
+		}
+	}
+}
+
+// resolveParamCallees: the functions that can flow into a function-typed
+// parameter of an unexported function, from all its call sites in the loaded
+// (non-test) program.  nil = unknown.
+func (e *Engine) resolveParamCallees(v ssa.Value, depth int) []*ssa.Function {
+	p, ok := v.(*ssa.Parameter)
+	if !ok || depth > 3 {
+		return nil
+	}
+	f := p.Parent()
+	if f == nil || !inRepoFn(f) {
+		return nil
+	}
+	if f.Object() != nil && f.Object().Exported() && f.Parent() == nil {
+		// exported API: callers outside the repository may pass anything
+		if recv := f.Signature.Recv(); recv == nil || types.NewMethodSet(recv.Type()).Len() >= 0 {
+			return nil
+		}
+	}
+	idx := -1
+	for i, q := range f.Params {
+		if q == p {
+			idx = i
+		}
+	}
+	if idx < 0 {
+		return nil
+	}
+	if e.callers == nil {
+		e.callers = map[*ssa.Function][]ssa.CallInstruction{}
+		for _, g := range e.fns {
+			for _, b := range g.Blocks {
+				for _, ins := range b.Instrs {
+					if c, ok := ins.(ssa.CallInstruction); ok {
+						if callee := c.Common().StaticCallee(); callee != nil {
+							e.callers[callee] = append(e.callers[callee], c)
+						}
+					}
+				}
+			}
+		}
+	}
+	var out []*ssa.Function
+	sites := e.callers[f]
+	if len(sites) == 0 {
+		return nil
+	}
+	for _, c := range sites {
+		args := c.Common().Args
+		if idx >= len(args) {
+			return nil
+		}
+		switch a := args[idx].(type) {
+		case *ssa.MakeClosure:
+			out = append(out, a.Fn.(*ssa.Function))
+		case *ssa.Function:
+			out = append(out, a)
+		case *ssa.Parameter:
+			sub := e.resolveParamCallees(a, depth+1)
+			if sub == nil {
+				return nil
+			}
+			out = append(out, sub...)
+		case *ssa.Const:
+			// nil function: never called
+		default:
+			return nil
+		}
+	}
+	return out
+}
+
+func (e *Engine) wsWhy(fn *ssa.Function, why string) {
+	if os.Getenv("GOVC_WS_DEBUG") != "" {
+		fmt.Fprintf(os.Stderr, "ws-top: %s: %s\n", fn.String(), why)
+	}
+}
+
 func (e *Engine) writeSet(fn *ssa.Function) *WriteSet {
 	if ws, ok := e.wsMemo[fn]; ok {
 		return ws
@@ -1127,7 +1317,8 @@ func (e *Engine) scanWrites(fn *ssa.Function, blocks []*ssa.BasicBlock) *WriteSe
 					cur = inner
 					continue
 				}
-				ws.add(so.structComp(fa.X.Type().Underlying().(*types.Pointer).Elem()))
+				pt := fa.X.Type().Underlying().(*types.Pointer).Elem()
+				ws.addField(so.structComp(pt), so.structInfo(pt).Fields[fa.Field].Acc)
 				return
 			}
 		case *ssa.IndexAddr:
@@ -1149,7 +1340,11 @@ func (e *Engine) scanWrites(fn *ssa.Function, blocks []*ssa.BasicBlock) *WriteSe
 			}
 			switch u := et.Underlying().(type) {
 			case *types.Struct:
-				ws.add(so.structComp(et))
+				if _, isAlloc := v.(*ssa.Alloc); isAlloc {
+					ws.add(so.structComp(et)) // initialising a fresh object
+				} else {
+					ws.addField(so.structComp(et), "*")
+				}
 			case *types.Array:
 				ws.add(so.elemComp(u.Elem()))
 			default:
@@ -1203,6 +1398,7 @@ func (e *Engine) scanWrites(fn *ssa.Function, blocks []*ssa.BasicBlock) *WriteSe
 				}
 			case *ssa.Go, *ssa.Send, *ssa.Select:
 				ws.Top = true
+				e.wsWhy(fn, fmt.Sprintf("%T", ins))
 			case ssa.CallInstruction:
 				cc := t.Common()
 				if bi, ok := cc.Value.(*ssa.Builtin); ok {
@@ -1233,43 +1429,55 @@ func (e *Engine) scanWrites(fn *ssa.Function, blocks []*ssa.BasicBlock) *WriteSe
 					if f := e.resolveFuncValue(cc.Value); f != nil {
 						callee = f
 						key = f.String()
+					} else if fs := e.resolveParamCallees(cc.Value, 0); fs != nil {
+						// a function-typed parameter of an unexported function: closed world
+						for _, f := range fs {
+							ws.merge(e.writeSet(f))
+						}
+						continue
 					} else {
 						ws.Top = true
+						e.wsWhy(fn, "dynamic call")
 						continue
+					}
+				}
+				if cc.IsInvoke() {
+					k2 := "(" + cc.Value.Type().String() + ")." + cc.Method.Name()
+					if _, ok := e.contracts[k2]; ok {
+						key = k2
 					}
 				}
 				ct := e.contracts[key]
 				if ct != nil && ct.Havoc {
 					ws.Top = true
+					e.wsWhy(fn, "havoc contract "+key)
 					continue
 				}
-				if callee != nil && len(callee.Blocks) > 0 && (ct == nil || !ct.Assumed) {
+				if callee != nil && !inRepoFn(callee) && ct == nil {
+					// external function without contract: assumed to write only memory
+					// reachable (one level) from its arguments
+					e.externArgWrites(ws, cc)
+					continue
+				}
+				if callee != nil && len(callee.Blocks) > 0 && inRepoFn(callee) && (ct == nil || !ct.Assumed) {
 					sub := e.writeSet(callee)
-					if sub.Top {
-						ws.Top = true
-					}
-					for c := range sub.Comps {
-						ws.add(c)
-					}
+					ws.merge(sub)
 					if ct != nil {
 						cw := e.contractWrites(x, ct)
-						for c := range cw.Comps {
-							ws.add(c)
-						}
+						ws.merge(cw)
 					}
 					continue
 				}
 				if ct != nil {
 					cw := e.contractWrites(x, ct)
+					ws.merge(cw)
 					if cw.Top {
-						ws.Top = true
-					}
-					for c := range cw.Comps {
-						ws.add(c)
+						e.wsWhy(fn, "contract with unresolved/unbounded modifies: "+key)
 					}
 					continue
 				}
 				ws.Top = true
+				e.wsWhy(fn, "call without contract: "+key)
 			}
 		}
 	}
